@@ -121,6 +121,15 @@ def server_stress(rep, scratch, tier, seed):
     bad = 0
     try:
         batches = [c13.gen(random.Random(seed * 100 + k), "quick", ds)[:(60 if tier == "quick" else 150)] for k in range(nclients)]
+        # every client also sends the SAME requests (grouped queries, repeated), so that identical
+        # queries are in flight at the same moment: anything the server keeps per query text
+        # or per converted query is then shared between requests
+        a1 = ("E", wc.COLS[0], b"1", 0)
+        t2 = ("O", [a1, ("N", ("E", wc.COLS[1], b"x", 0))])
+        same = [("z%d" % j, [wc.enc_q(0, t2, [wc.COLS[j % 3], wc.COLS[(j + 1) % 3]]), wc.enc_q(0, a1, [wc.COLS[(j + 2) % 3]]), wc.enc_q(0, t2, [])]) for j in range(6)]
+        same = same * (8 if tier == "quick" else 30)
+        same = [("%s_%d" % (rid, n), qs) for n, (rid, qs) in enumerate(same)]
+        batches = [same[:len(same) // 2] + b + same[len(same) // 2:] for b in batches]
 
         def client(k):
             impl, model, rc, err, lines = wc.run_wire(scratch, ds, batches[k], srv.addr, idx, "c04srv%d" % k)
